@@ -29,6 +29,8 @@ pub enum Role {
     ModuleConst,
     /// element type of a module-scope `const` array
     ModuleConstArrayElem,
+    /// result type of an ordinary (non-entry) function
+    HelperResult,
 }
 use Role::*;
 
@@ -51,10 +53,10 @@ pub enum Shape {
 impl Shape {
     pub fn roles(self) -> &'static [Role] {
         match self {
-            Shape::Plain => &[Uniform, Storage, Workgroup, Private, PushConstant, FixedArrayElem, RtArrayElem, HelperParam, Local, OverrideArrayElem, NestedArrayElem, ModuleConst, ModuleConstArrayElem],
-            Shape::VertexIn => &[VertexParam, Uniform, Storage, HelperParam, Local, RtArrayElem],
+            Shape::Plain => &[Uniform, Storage, Workgroup, Private, PushConstant, FixedArrayElem, RtArrayElem, HelperParam, Local, OverrideArrayElem, NestedArrayElem, ModuleConst, ModuleConstArrayElem, HelperResult],
+            Shape::VertexIn => &[VertexParam, Uniform, Storage, HelperParam, Local, RtArrayElem, HelperResult],
             Shape::Varying => &[VertexResult, FragmentParam, Uniform, Storage, Private, Local],
-            Shape::Located => &[VertexParam, FragmentParam, FragmentResult, Storage, Workgroup, FixedArrayElem],
+            Shape::Located => &[VertexParam, FragmentParam, FragmentResult, Storage, Workgroup, FixedArrayElem, HelperResult],
             Shape::ComputeIn => &[ComputeParam, Storage, Local],
             Shape::BoolMembers => &[Workgroup, Private, HelperParam, Local, ModuleConst],
         }
@@ -168,6 +170,7 @@ pub fn build(defs: &[SDef], key: String) -> Prog {
                 }
                 ModuleConst => src.push_str(&format!("const mc{i} = {name}();\n")),
                 ModuleConstArrayElem => src.push_str(&format!("const mca{i} = array<{name}, 2>({name}(), {name}());\n")),
+                HelperResult => helpers.push_str(&format!("fn helper_result{i}() -> {name} {{ var r: {name}; return r; }}\n")),
                 HelperParam => helpers.push_str(&format!("fn helper{i}(x: {name}) -> f32 {{ return 1.0; }}\n")),
                 Local => locals.push_str(&format!("    var l{i}: {name};\n")),
                 VertexParam => {
@@ -460,7 +463,7 @@ pub fn run(tier: &str) -> i32 {
     let n0 = progs.len();
     for i in 0..n0 {
         if rep.thorough() || hash64(&progs[i].key) % 4 == 1 {
-            for how in ["reverse", "entries-first"] {
+            for how in ["reverse", "entries-first", "interleave"] {
                 if let Some(src) = reorder_decls(&progs[i].src, how) {
                     progs.push(Prog { key: format!("{}|decl-order={how}", progs[i].key), src, expected: progs[i].expected.clone(), steps: progs[i].steps });
                 }
